@@ -1102,10 +1102,9 @@ func (h *NtfnsHandler) asyncRemove(walletId string) error {
 			if err != nil {
 				logging.CPrint(logging.ERROR, "[asyncRemove-2] failed", logging.LogFormat{"err": err})
 				if finish {
-					mwdb.View(h.walletMgr.db, func(rtx mwdb.ReadTransaction) error {
-						h.walletMgr.ksmgr.UpdateManagedKeystores(rtx, walletId)
-						return nil
-					})
+					// DeleteKeystore has dropped the keystore from the cache inside the
+					// transaction that failed: put it back (no database access: this cannot fail)
+					h.walletMgr.ksmgr.RestoreCachedKeystore(am)
 				}
 				return err
 			}
